@@ -294,8 +294,9 @@ def task_topup_conformations(pr, repo):
         def tu(ex, ctx_, fi_, a, k, so):
             calls.append((so, list(a[0])))
         ex.contracts[CC + '.top_up_from_atoms'] = tu
-        atoms = {c: [record('%s_%d' % (c, i), A, residue_label=lab) for i, lab in enumerate(labs)]
-                 for c, labs in layouts[layout]}
+        # serial numbers (numb) run AGAINST the conformation order: they may not decide which atom is the reference
+        atoms = {c: [record('%s_%d' % (c, i), A, residue_label=lab, numb=100 - 10 * ci - i) for i, lab in enumerate(labs)]
+                 for ci, (c, labs) in enumerate(layouts[layout])}
         confs = {c: record('conf' + c, repo.cls(CC), atoms=atoms[c]) for c in atoms}
         mol = record('mol', repo.cls(MC), conformation_names=['1A', '1B', '2A'], conformations=confs)
         ex.call_function(fi, [], self_obj=mol)
